@@ -138,3 +138,23 @@ Example C16_demo_in_file_mode_computes :
   List.length (filter (fun o => match o with Some (Fail _) => true | _ => false end)
                       (map brief (run_all_file mc_after_first (map item_tree demo_items)))) = 6%nat.
 Proof. split; vm_compute; reflexivity. Qed.
+
+(* ---- what the run counts as covered is covered ---- *)
+Require Import Calc.StmtStart Calc.CorrFragment Calc.FragmentSound.
+
+(* the run evaluates covered_modes in Coq on generated sessions: the first tree is run from the fresh machine in
+   value mode and in file mode (those runs also execute the built-ins' definitions and are not covered); when
+   the two machines pass the sound checks of the theorem's premises, every tree of the counted prefix of the
+   remaining trees behaves in the two modes as the two-machine session theorem says *)
+Theorem C16_counted_trees_are_covered_in_both_modes : forall mc0 t1 r,
+  machine_new = Some mc0 ->
+  let mc1 := fst (run_tree false mc0 t1) in
+  let mc2 := fst (run_tree true mc0 t1) in
+  let pre := firstn (covered_modes (t1 :: r)) r in
+  pair false true [] [] (self_tab mc1) (self_tab mc2) mc1 mc2 (map item_of pre) /\ map item_tree (map item_of pre) = pre.
+Proof. exact covered_modes_sound. Qed.
+Print Assumptions C16_counted_trees_are_covered_in_both_modes.
+
+Example C16_modes_check_passes :
+  covered_modes ([NAssign (NName "ga") (NInt 3); def_lim; def_sq; def_big; def_mad; def_k] ++ demo_ucalls) = 23%nat.
+Proof. vm_compute. reflexivity. Qed.
